@@ -271,6 +271,8 @@ pub fn main(layouts_json: &str, entries: &[Entry]) -> i32 {
                     if prop == "C11" {
                         *pert.entry("out_of_range_index_write".into()).or_insert(0) += st.oob_index_writes;
                         *pert.entry("out_of_range_index_write_returned_normally".into()).or_insert(0) += st.oob_writes_returned_normally;
+                        *pert.entry("operator_trait_op_attempted".into()).or_insert(0) += st.operator_ops_attempted;
+                        *pert.entry("operator_trait_op_supported_by_tree".into()).or_insert(0) += st.operator_ops_supported;
                     }
                     for i in 0..N_PROBES {
                         probes[i] += st.probes[i];
